@@ -202,7 +202,9 @@ fn main() {
     // universe with build metadata (eq must ignore build) and wide numbers
     let u_build = universe(&["0", "1", "10"], &["0", "10", "a", "B"], 2, &["", "x", "1", "0.a"]);
     let s_build = check_pairs(&ctx, &u_build);
-    let u_wide = universe(&["0", "9", "10", "4294967296", "9999999999999999999", "18446744073709551615"], &["9", "10", "18446744073709551615", "a", "-", "1000000000000000000", "9000000000000000000", "10000000000000000000", "9999999999999999999"], if quick { 1 } else { 2 }, &[""]);
+    let u_wide = universe(&["0", "9", "10", "4294967296", "9999999999999999999", "18446744073709551615"], &["9", "10", "18446744073709551615", "a", "-", "1000000000000000000", "9000000000000000000", "10000000000000000000", "9999999999999999999",
+        // numeric identifiers that no longer fit u64 (kept as digit text by the parser): still numeric, still below every alphanumeric one
+        "18446744073709551616", "99999999999999999999", "100000000000000000000000"], if quick { 1 } else { 2 }, &[""]);
     let s_wide = check_pairs(&ctx, &u_wide);
     // hyphenated identifiers: one alphanumeric identifier each in SemVer 2.0.0, never a separator
     let u_hyph = universe(&["0", "1"], &["rc", "rc-2", "rc-10", "2", "10", "1-0", "-", "rc-", "-1", "a-b", "0-0", "01a", "00x", "007f3a2", "00-1", "0a"], 2, &[""]);
@@ -257,7 +259,7 @@ fn main() {
     cov.evaluations = all.get("pairs") + all.get("triples") + all.get("max_tag_sets");
     cov.traces_validated = cov.evaluations;
     cov.distinct_nontrivial = all.get("want_less") + all.get("want_greater");
-    cov.rule = format!("versions are built as strings and parsed by the real parser; universe U1 = core numbers {nums:?}^3 x pre-release lists of length <=3 over {ids:?} ({} versions, all ordered pairs vs the reference comparator); U2 adds build metadata variants ({}), U3 wide numbers up to u64::MAX ({}); U4 hyphenated identifiers (rc-2, rc-10, 1-0, -, ...) in lists of length <=2 ({}); all ordered triples of a {}-element sub-universe (transitivity, no reference); find_max_version_tag on all ordered selections of <=3 tags from {} versions, and through the real tag filter on all ordered selections of <=3 (thorough 4) names from a pool of 10 that mixes SemVer tags with non-SemVer names. non-trivial = ordered pairs whose precedence differs (not Equal)", u_main.len(), u_build.len(), u_wide.len(), u_hyph.len(), sub.len(), sub2.len());
+    cov.rule = format!("versions are built as strings and parsed by the real parser; universe U1 = core numbers {nums:?}^3 x pre-release lists of length <=3 over {ids:?} ({} versions, all ordered pairs vs the reference comparator); U2 adds build metadata variants ({}), U3 wide numbers up to u64::MAX in the core and up to 24 digits in identifiers ({}); U4 hyphenated identifiers (rc-2, rc-10, 1-0, -, ...) in lists of length <=2 ({}); all ordered triples of a {}-element sub-universe (transitivity, no reference); find_max_version_tag on all ordered selections of <=3 tags from {} versions, and through the real tag filter on all ordered selections of <=3 (thorough 4) names from a pool of 10 that mixes SemVer tags with non-SemVer names. non-trivial = ordered pairs whose precedence differs (not Equal)", u_main.len(), u_build.len(), u_wide.len(), u_hyph.len(), sub.len(), sub2.len());
     cov.exhaustive = true;
     cov.samples = vec![json!({"a": u_main[u_main.len()/3].text, "b": u_main[u_main.len()/2].text}), json!({"a": u_build[5].text, "b": u_build[6].text}), json!({"a": u_wide[u_wide.len()-1].text, "b": u_wide[u_wide.len()/2].text})];
     cov.set("clause_counts", all.to_json());
